@@ -39,7 +39,7 @@ func c20Scope(w *core.World) map[*ssa.Function]bool {
 		if f.Pkg == nil || f.Blocks == nil {
 			continue
 		}
-		p := f.Pkg.Pkg.Path()
+		p := core.PkgPath(f)
 		if p == core.Module+"/pkg/utils" || p == core.Module+"/pkg/datastore/target/netconf" || strings.HasPrefix(p, core.Module+"/pkg/tree/importer") ||
 			p == core.Module+"/pkg/datastore/clients/schema" || p == core.Module+"/pkg/server" || p == core.Module+"/pkg/datastore" || p == core.Module+"/pkg/tree" {
 			out[f] = true
@@ -229,7 +229,7 @@ func c20(w *core.World, r *core.Report) {
 					idx = ex.Index
 				}
 				for _, oc := range core.OriginCalls(st.Val) {
-					if g := oc.Call.StaticCallee(); g != nil && g.Blocks != nil && g.Pkg != nil && strings.HasPrefix(g.Pkg.Pkg.Path(), core.Module) && mayReturnNilPtr(g, idx) && !nilGuarded(st, st.Val) {
+					if g := oc.Call.StaticCallee(); g != nil && g.Blocks != nil && g.Pkg != nil && strings.HasPrefix(core.PkgPath(g), core.Module) && mayReturnNilPtr(g, idx) && !nilGuarded(st, st.Val) {
 						nilableBoxed[st.Val.Type().String()] = core.FuncKey(f) + " stores the result of " + core.FuncKey(g)
 					}
 				}
@@ -245,7 +245,7 @@ func c20(w *core.World, r *core.Report) {
 	}
 	derefs := map[pkey]ssa.Instruction{}
 	for _, f := range w.RepoFns {
-		if f.Pkg == nil || !strings.HasPrefix(f.Pkg.Pkg.Path(), core.Module+"/pkg/") {
+		if f.Pkg == nil || !strings.HasPrefix(core.PkgPath(f), core.Module+"/pkg/") {
 			continue
 		}
 		for _, b := range f.Blocks {
